@@ -7,11 +7,14 @@ import re
 from typing import Any
 
 from ..charclass import EITHER, FACTS, S, bad_identifier_chars, members
-from ..astutil import norm
+from ..astutil import Locals, anon, call_name, cfg_of, local_names, norm, short, stmt_of
+from ..cfg import walk_own
 from ..core import PKG, Report
 from ..domain import CONST, ENUM, IDENT, NUM, WORD
 from ..jinja_interp import expr_text
-from .registries import check_module_files, check_registries
+from .registries import check_module_files, check_registries, parameter_passes
+
+MODE_PARAM = "skip_snake_case"  # the mode switch of PythonIdentifier.__new__ (a parameter name: part of the repository's interface)
 
 LEVEL = ("(a) validity: abstract interpretation of the naming pipeline over sets of code points - every return path of "
          "PythonIdentifier.__new__ (snake and raw mode), ClassName.__new__ and every member-name store of "
@@ -21,7 +24,10 @@ LEVEL = ("(a) validity: abstract interpretation of the naming pipeline over sets
          "(b') every printed expression standing at an identifier-required position of a generated line (decided from the generated "
          "text around it) is reached only by text labelled IDENT / CONST / ENUM / WORD / NUM; "
          "(c) uniqueness scopes: keyed registry stores dominated by membership tests leading to diagnostics, conflict "
-         "resolution followed by re-checks (CFG dominance / path rules).")
+         "resolution followed by re-checks (CFG dominance / path rules); (d) the constructor mode that R09.1 shows to let delimiters "
+         "through is traced over the call graph (forwarding parameters, defaults, locals) to every site that can select it: each is "
+         "preceded on every path by a collision test of derived names; (e) the operation's parameter pass reads every parameter "
+         "collection of the operation (fields by declared element type, and those whose names the templates print).")
 
 
 def run(rep: Report, ctx: Any) -> str:
@@ -41,19 +47,22 @@ def run(rep: Report, ctx: Any) -> str:
     ch.reserved_words(None)
 
     n_paths = 0
+    leak: dict[Any, int] = {}  # PythonIdentifier mode -> code points outside ID_Continue that survive on some unvalidated path
     for cls_name, modes in (("PythonIdentifier", (False, True)), ("ClassName", (None,))):
         f = ix.func(f"{cls_name}.__new__")
         for mode in modes:
             args = {"value": ch.TOP, "prefix": ch.PREFIX, "cls": None}
             tag = cls_name
             if mode is not None:
-                args["skip_snake_case"] = mode
+                args[MODE_PARAM] = mode
                 tag += "[raw]" if mode else "[snake]"
             out, paths = ch.run_function(f, args)
             rep.require(paths, f"return paths of {cls_name}.__new__")
             for p in paths:
                 n_paths += 1
                 validated = p.result.valid
+                if mode is not None:
+                    leak[mode] = leak.get(mode, 0) | (0 if validated else p.result.any & ~t.ID_CONT)
                 key = f"{tag}::{'validated' if validated else 'prefixed'}-path"
                 bad = bad_identifier_chars(t, p.result)
                 if not p.result.nokw:
@@ -162,6 +171,8 @@ def run(rep: Report, ctx: Any) -> str:
     check_registries(rep, ctx, "R09.3")
     check_module_files(rep, ctx, "R09.3")
     rep.not_decided.append("that disambiguation always succeeds when it could; only that it is attempted or diagnosed")
+    check_weak_mode(rep, ctx, "R09.4", ix.func("PythonIdentifier.__new__"), MODE_PARAM, leak)
+    check_pass_sources(rep, ctx, "R09.5")
     return LEVEL
 
 
@@ -238,3 +249,381 @@ def name_positions(jx: Any) -> list[tuple[str, str, Any, str]]:
         if ti.lang == "python":  # the grammar applied is Python's
             walk(ti.tree.body, tname, "<top>", "")
     return out
+
+
+# ---- R09.4: who selects the constructor's weak mode ------------------------------------------------------------------------------
+_OPAQUE = ast.Constant(value="<* / ** argument>")  # what a call supplies for a parameter cannot be told
+
+
+def _nesting(f: Any) -> int:
+    n = 0
+    while f.parent is not None:
+        f, n = f.parent, n + 1
+    return n
+
+
+def call_sites(ix: Any) -> list[tuple[ast.Call, Any, Any]]:
+    """(call, innermost function containing it or None at module / class level, module) for every call of the package"""
+    out: list[tuple[ast.Call, Any, Any]] = []
+    for m in ix.modules.values():
+        owner: dict[int, Any] = {}
+        for f in sorted((f for f in ix.all_functions if f.module is m), key=_nesting):  # inner functions overwrite outer ones
+            for n in ast.walk(f.node):
+                owner[id(n)] = f
+        out += [(n, owner.get(id(n)), m) for n in ast.walk(m.tree) if isinstance(n, ast.Call)]
+    return out
+
+
+def _callee_label(k: Any) -> str:
+    """the name a function is called by: a constructor by its class"""
+    return k.cls.name if k.cls is not None and k.parent is None and k.name in ("__new__", "__init__") else k.name
+
+
+def _is_call_of(c: ast.Call, k: Any, m: Any) -> bool:
+    label = _callee_label(k)
+    if isinstance(c.func, ast.Attribute):
+        return c.func.attr == label
+    if isinstance(c.func, ast.Name):
+        return c.func.id == label or m.imports.get(c.func.id, "").rsplit(".", 1)[-1] == label
+    return False
+
+
+def _default_of(fn: Any, pname: str) -> "ast.expr | None":
+    a = fn.args
+    pos = [*a.posonlyargs, *a.args]
+    for arg, d in zip(reversed(pos), reversed(a.defaults)):
+        if arg.arg == pname:
+            return d
+    for arg, d in zip(a.kwonlyargs, a.kw_defaults):
+        if arg.arg == pname:
+            return d
+    return None
+
+
+def _supplied(c: ast.Call, k: Any, pname: str) -> "ast.expr | None":
+    """the expression call c supplies for parameter pname of k; None when the default applies; _OPAQUE when it cannot be told"""
+    for kw in c.keywords:
+        if kw.arg == pname:
+            return kw.value
+    a = k.node.args
+    pos = [x.arg for x in [*a.posonlyargs, *a.args]]
+    if pname in pos:
+        i = pos.index(pname)
+        if k.cls is not None and k.parent is None and k.kind != "staticmethod":
+            i -= 1  # self / cls comes from the call itself
+        if any(isinstance(x, ast.Starred) for x in c.args[:i + 1]):
+            return _OPAQUE
+        if 0 <= i < len(c.args):
+            return c.args[i]
+    return _OPAQUE if any(kw.arg is None for kw in c.keywords) else None
+
+
+def _mode_values(e: "ast.expr | None", h: Any, m: Any, weak: bool, depth: int = 3) -> set[Any]:
+    """what a mode expression written in function h (None: module level) of module m can be: "weak" / "safe" for a constant, followed
+    through plain locals and conditional expressions; ("forward", function, parameter) for a parameter of an enclosing function
+    handed on unchanged; "unknown" for anything else"""
+    if e is None:
+        return set()
+    if isinstance(e, ast.Constant) and e is not _OPAQUE:
+        return {"weak" if bool(e.value) == weak else "safe"}
+    if isinstance(e, ast.UnaryOp) and isinstance(e.op, ast.Not) and isinstance(e.operand, ast.Constant):
+        return {"weak" if (not e.operand.value) == weak else "safe"}
+    if isinstance(e, ast.IfExp):
+        return _mode_values(e.body, h, m, weak, depth) | _mode_values(e.orelse, h, m, weak, depth)
+    if isinstance(e, ast.Name):
+        g = h
+        while g is not None:
+            out: set[Any] = set()
+            ds = Locals(g.node).defs.get(e.id, [])
+            is_param = e.id in {a.arg for a in g.params}
+            if ds:
+                if depth > 0 and all(k == "assign" and v is not None for k, _, v in ds):
+                    for _, _, v in ds:
+                        out |= _mode_values(v, g, m, weak, depth - 1)
+                else:
+                    out.add("unknown")
+            if is_param:
+                out.add(("forward", g, e.id))
+            if out:
+                return out
+            g = g.parent
+        if h is None or e.id in m.variables:
+            v = m.variables.get(e.id)
+            if v is not None and depth > 0:
+                return _mode_values(v, None, m, weak, depth - 1)
+    return {"unknown"}
+
+
+def fields_typed(ctx: Any, quals: set[str]) -> set[str]:
+    """names of the annotated fields (of the classes built from the document) whose declared type is one of the classes `quals`"""
+    ix = ctx.py
+    it, _ = ctx.flow
+    out = set()
+    for c in ix.classes.values():
+        if c.qual in it.raw_classes or c.qual in it.config_classes:
+            continue
+        for fname, ann in ix.all_fields(c).items():
+            if ann is not None:
+                av = it.tr.from_ann(c.module, ann)
+                if av.types and av.types <= quals:
+                    out.add(fname)
+    return out
+
+
+def _collision_test(x: ast.AST, attrs: set[str]) -> bool:
+    """x finds out whether a derived name is already taken: `a.<name> == / != b.<name>`, `a.<name> in / not in <names>`,
+    `<names>.pop / get(a.<name>)` - <name> an identifier-typed attribute"""
+    def is_name(e: ast.AST) -> bool:
+        return isinstance(e, ast.Attribute) and e.attr in attrs
+
+    if isinstance(x, ast.Compare) and len(x.ops) == 1:
+        if isinstance(x.ops[0], (ast.Eq, ast.NotEq)):
+            return is_name(x.left) and is_name(x.comparators[0])
+        if isinstance(x.ops[0], (ast.In, ast.NotIn)):
+            return is_name(x.left)
+    if isinstance(x, ast.Call) and isinstance(x.func, ast.Attribute) and x.func.attr in ("pop", "get") and x.args:
+        return is_name(x.args[0])
+    return False
+
+
+def check_weak_mode(rep: Report, ctx: Any, rid: str, ctor: Any, pname: str, leak: dict[Any, int]) -> None:
+    """The identifier constructor has a mode in which more non-identifier characters survive than in the other (R09.1 decides which,
+    from the constructor's own code).  That mode exists for one purpose - telling apart two names that collided after the normal
+    derivation - so whoever can select it (a constant, a forwarded parameter of any depth, a default, a local) must come after a
+    collision test on every path; a name's first derivation never takes it."""
+    ix = ctx.py
+    t = ctx.tables
+    rep.rule(rid, "the mode of the identifier constructor in which characters outside ID_Continue survive that the other mode removes "
+                  "(decided by R09.1's abstract interpretation, not by its name) is selected only to resolve a collision: every site "
+                  "that can supply that mode value - a constant, a conditional, a local, a parameter default, or a parameter forwarded "
+                  "through any chain of functions - is dominated, in its function or at every call of that function, by a test whether "
+                  "a derived name is already taken (comparison of two identifier-typed attributes, membership / pop / get keyed by one); "
+                  "a name's first derivation always takes the other mode")
+    weak_values = [v for v in leak if any(leak[v] & ~leak[o] and not leak[o] & ~leak[v] for o in leak if o != v)]
+    if not weak_values:
+        rep.observe(f"{rid}: no mode of {_callee_label(ctor)} lets more non-identifier characters through than the other: nothing to trace")
+        return
+    weak = bool(weak_values[0])
+    extra = 0
+    for o in leak:
+        if o != weak_values[0]:
+            extra |= leak[weak_values[0]] & ~leak[o]
+    shown = [f"U+{c:04X}" for c in members(extra, 6)]
+    sites = call_sites(ix)
+    attrs = fields_typed(ctx, {ctor.cls.qual})
+    rep.require(attrs, f"fields annotated {ctor.cls.name}")
+    cfgs: dict[str, Any] = {}
+
+    origins: dict[int, tuple[Any, Any, ast.Call, str, str]] = {}
+    todo = [(ctor, pname)]
+    done: set[tuple[str, str]] = set()
+    examined: set[int] = set()
+    while todo:
+        k, p = todo.pop()
+        if (k.qual, p) in done:
+            continue
+        done.add((k.qual, p))
+        default = _default_of(k.node, p)
+        for c, h, m in sites:
+            # a call of k; for the constructor also any call that passes the mode by keyword (functools.partial and the like)
+            if not (_is_call_of(c, k, m) or (k is ctor and any(kw.arg == p for kw in c.keywords))):
+                continue
+            examined.add(id(c))
+            e = _supplied(c, k, p)
+            if e is _OPAQUE:
+                vals: set[Any] = {"unknown"}
+            elif e is None:
+                vals = _mode_values(default, None, k.module, weak)
+            else:
+                vals = _mode_values(e, h, m, weak)
+            for v in vals:
+                if isinstance(v, tuple):
+                    todo.append((v[1], v[2]))
+                elif v != "safe":
+                    how = "weak" if v == "weak" else "unknown"
+                    if id(c) not in origins or how == "weak":
+                        origins[id(c)] = (h, m, c, f"{_callee_label(k)}({p}", how + ("-default" if e is None else ""))
+    rep.floor("mode_call_sites", len(examined), 10)
+
+    def precedes(h: Any) -> Any:
+        same_module = {g.name: g for g in ix.all_functions if g.module is h.module and g is not h}
+
+        def is_test(n: object) -> bool:
+            if not isinstance(n, ast.stmt):
+                return False
+            for x in walk_own(n):
+                if _collision_test(x, attrs):
+                    return True
+                # the test may live in a helper of the module (`if _collides(a, b):`)
+                if isinstance(x, ast.Call):
+                    g = same_module.get(call_name(x).rsplit(".", 1)[-1])
+                    if g is not None and any(_collision_test(y, attrs) for y in ast.walk(g.node)):
+                        return True
+            return False
+
+        return is_test
+
+    def admissible(h: Any, node: ast.AST, depth: int = 3) -> bool:
+        if h is None:
+            return False
+        st = stmt_of(h.node, node)
+        if st is not None and cfg_of(h, cfgs).is_dominated_by(st, precedes(h)):
+            return True
+        if depth == 0:
+            return False
+        callers = [(c2, h2) for c2, h2, m2 in sites if h2 is not h and _is_call_of(c2, h, m2)]
+        return bool(callers) and all(admissible(h2, c2, depth - 1) for c2, h2 in callers)
+
+    per: dict[str, int] = {}
+    for h, m, c, label, how in sorted(origins.values(), key=lambda o: (o[1].rel, o[2].lineno, o[2].col_offset)):
+        base = f"{short(h) if h is not None else m.name.replace(PKG + '.', '') + '.<module>'}::{label}:{how})"
+        per[base] = per.get(base, 0) + 1
+        key = base + (f"#{per[base]}" if per[base] > 1 else "")
+        lnames = local_names(h.node) if h is not None else set()
+        rep.check(admissible(h, c), rid, key,
+                  f"`{anon(c, lnames)[:90]}` {'selects' if how.startswith('weak') else 'may select'} the constructor mode in which {shown} "
+                  "survive, and no test whether a derived name is already taken precedes it on every path (neither in this function nor "
+                  "at every call of it): this is a name's first derivation, not the resolution of a collision",
+                  where=f"{m.rel}:{c.lineno}", lhs=f"{pname} = {how}", rhs="dominated by a collision test of identifier-typed attributes "
+                  f"{sorted(attrs)}")
+    rep.floor("weak_mode_origins", len(origins), 2)
+    rep.not_decided.append(f"{rid}: that the collision test preceding a weak-mode site came out 'equal' on the path taken (only that it is "
+                           "passed on every path); mode values computed by anything but constants, conditionals, locals and forwarded parameters "
+                           "count as 'may select'")
+
+
+# ---- R09.5: the parameter pass sees every parameter collection of the operation --------------------------------------------------
+def _strings_of(e: ast.AST, lc: Locals, depth: int = 2) -> "list[str] | None":
+    """the strings expression e can be, as regular expressions (an f-string's holes match anything); None when it cannot be told"""
+    if isinstance(e, ast.Constant) and isinstance(e.value, str):
+        return [re.escape(e.value)]
+    if isinstance(e, ast.JoinedStr):
+        return ["".join(re.escape(v.value) if isinstance(v, ast.Constant) else ".*" for v in e.values)]
+    if isinstance(e, ast.Name) and depth > 0:
+        out: list[str] = []
+        for kind, _, v in lc.defs.get(e.id, []):
+            if v is None:
+                return None
+            alts = None
+            if kind == "assign":
+                alts = [v]
+            elif kind.startswith("for") and isinstance(v, (ast.Tuple, ast.List, ast.Set)):
+                # `for x in (A, B)` / `for x, y in ((A, 1), (B, 2))`: the loop variable is each element / the i-th component of each
+                alts = list(v.elts)
+                for i in re.findall(r"\[(\d+)\]", kind):
+                    alts = [a.elts[int(i)] if isinstance(a, (ast.Tuple, ast.List)) and int(i) < len(a.elts) else None for a in alts]
+                    if any(a is None for a in alts):
+                        alts = None
+                        break
+            if alts is None:
+                return None
+            for a in alts:
+                got = _strings_of(a, lc, depth - 1)
+                if got is None:
+                    return None
+                out += got
+        return out or None
+    return None
+
+
+def fields_read(ix: Any, g: Any, node: ast.AST, fields: set[str], depth: int = 3, seen: "set[str] | None" = None) -> tuple[set[str], bool]:
+    """(the fields among `fields` that evaluating `node` in function g reads - directly, through the locals it mentions, through
+    methods of g's class and functions of g's module it calls (their whole bodies), through getattr with a determinable name -,
+    whether some attribute is read under a name that cannot be determined)"""
+    seen = seen if seen is not None else set()
+    out: set[str] = set()
+    dynamic = False
+    lc = Locals(g.node)
+    for n in ast.walk(node):
+        if isinstance(n, ast.Attribute) and isinstance(n.ctx, ast.Load) and n.attr in fields:
+            out.add(n.attr)
+        elif isinstance(n, ast.Name) and isinstance(n.ctx, ast.Load) and depth > 0 and node is not g.node:
+            for v in lc.values_of(n.id):
+                if v is not node and not any(v is x for x in ast.walk(node)):
+                    r, d = fields_read(ix, g, v, fields, depth - 1, seen)
+                    out |= r
+                    dynamic = dynamic or d
+            if n.id not in lc.defs and n.id in {a.arg for a in g.params}:
+                # handed in by whoever calls g (the pass was extracted and receives what it iterates over)
+                for h in ix.all_functions:
+                    if h.module is g.module and h is not g:
+                        for c in ast.walk(h.node):
+                            if isinstance(c, ast.Call) and _is_call_of(c, g, h.module):
+                                e = _supplied(c, g, n.id)
+                                if e is not None and e is not _OPAQUE:
+                                    r, d = fields_read(ix, h, e, fields, depth - 1, seen)
+                                    out |= r
+                                    dynamic = dynamic or d
+        elif isinstance(n, ast.Call):
+            last = call_name(n).rsplit(".", 1)[-1]
+            if last == "getattr" and len(n.args) >= 2:
+                pats = _strings_of(n.args[1], lc)
+                if pats is None:
+                    dynamic = True
+                else:
+                    out |= {f for f in fields if any(re.fullmatch(p_, f) for p_ in pats)}
+            elif depth > 0:
+                cands = []
+                if g.cls is not None and ix.find_method(g.cls, last) is not None:
+                    cands.append(ix.find_method(g.cls, last))
+                cands += [h for h in ix.all_functions if h.module is g.module and h.name == last and h.cls is None]
+                for h in cands:
+                    if h.qual not in seen:
+                        seen.add(h.qual)
+                        r, d = fields_read(ix, h, h.node, fields, depth - 1, seen)
+                        out |= r
+                        dynamic = dynamic or d
+    return out, dynamic
+
+
+def check_pass_sources(rep: Report, ctx: Any, rid: str) -> None:
+    """One uniqueness scope fed from several collections: the names checked must be all the names emitted.  The operation keeps its
+    parameters in one collection per location; the conflict check (reserved names, collisions, re-check) sees them only through what
+    its pass iterates over, while the templates print each collection on its own."""
+    ix = ctx.py
+    it, ji = ctx.flow
+    rep.rule(rid, "the conflict check of an operation's parameters sees every parameter of the operation: each collection field of the "
+                  "class owning the check whose elements carry a derived name (declared element type is a property class, or a template "
+                  "prints `<field>[*].<identifier-typed attribute>` into code) is read by what the parameter pass iterates over - the "
+                  "loop's iterable, followed through locals, methods of the class, helpers of the module and getattr")
+    ep = ix.cls("Endpoint")
+    f = ep.methods.get("_check_parameters_for_conflicts")
+    rep.require(f, "Endpoint._check_parameters_for_conflicts")
+    passes = parameter_passes(ix, f)
+    rep.require(passes, "parameter loop (with the reserved-name test) in _check_parameters_for_conflicts")
+    prop_quals = {c.qual for c in ix.property_classes()}
+    fields = ix.all_fields(ep)
+    declared = set()
+    for name, ann in fields.items():
+        av = it.tr.from_ann(ep.module, ann) if ann is not None else None
+        for _ in range(3):  # list[P], dict[K, list[P]], ...
+            av = getattr(av, "elem", None)
+            if av is None:
+                break
+            if av.types and av.types <= prop_quals:
+                declared.add(name)
+                break
+    name_attrs = fields_typed(ctx, set(it.ident_classes))
+    printed = set()
+    for e in ji.emissions.values():
+        if e.kind == "CODE":
+            for m_ in re.finditer(r"\.(\w+)\[\*\]\.(\w+)", e.hole):
+                if m_.group(1) in fields and m_.group(2) in name_attrs:
+                    printed.add(m_.group(1))
+    sources = declared | printed
+    rep.floor("parameter_collections", len(sources), 2)
+    read: set[str] = set()
+    dynamic = False
+    for g, loop in passes:
+        r, d = fields_read(ix, g, loop.iter, sources)
+        read |= r
+        dynamic = dynamic or d
+    rep.require(not (dynamic and sources - read), "the attribute names read through getattr(...) by the iteration of the parameter pass")
+    g0, loop0 = passes[0]
+    for x in sorted(sources):
+        rep.check(x in read, rid, f"{short(f)}::pass-reads[{x}]",
+                  f"parameters kept in `{x}` ({'declared a collection of properties' if x in declared else ''}"
+                  f"{' and ' if x in declared and x in printed else ''}{'printed by the templates' if x in printed else ''}) never reach "
+                  "the parameter pass: what it iterates over does not read that field, so their names are neither tested against the "
+                  "reserved names nor against the other parameters", where=f"{g0.module.rel}:{loop0.lineno}",
+                  lhs=f"fields read by `{norm(loop0.iter)[:60]}`: {sorted(read)}", rhs=f"all of {sorted(sources)}")
